@@ -15,6 +15,7 @@ import PolyVerif.Gen.StlNormals
     c07.read <bytes>                  → ok <hdr> n rec… | err          (stl.Read)
     c07.writemesh <mesh>              → ok <hdr> n rec… | panic        (stl.WriteMesh, decoded by the model decoder)
     c07.readmesh <bytes>              → ok <mesh> | err                (stl.ReadMesh)
+    c07.resavemesh <bytes>            → ok <hdr> n rec… | err          (stl.ReadMesh then stl.WriteMesh; stl_mesh_resave)
     c07.holds.size n <bytes>          → |bytes| = 84 + 50 n            (stl_length / stl_mesh_roundtrip)
     c07.holds.rt <hdr> n rec… <hdr> n rec…  → y = what the theorem says Read(Write x) is; y = x if x has no
                                         signalling NaN                  (stl_roundtrip, stl_roundtrip_exact)
@@ -186,6 +187,15 @@ def handle (op : String) (args : List String) : Option String := do
         | .ok (h, ts) => pure ("ok " ++ binHex h ts)
         | .error _ => pure "undecodable"
       | .error _ => pure "panic"
+  | "c07.resavemesh" =>      -- stl.ReadMesh then stl.WriteMesh: the exact re-saved bytes (NaN words canonical)
+      let bs ← bytesOfHex (← args.head?)
+      match resaveMesh P bs with
+      | .ok out =>
+        match decode out with
+        | .ok (h, ts) => pure ("ok " ++ binHex h ts)
+        | .error _ => pure "undecodable"
+      | .error .short => pure "err"
+      | .error .panic => pure "panic"
   | "c07.readmesh" =>
       let bs ← bytesOfHex (← args.head?)
       match readMesh P bs with
